@@ -28,6 +28,15 @@ impl Driven for D {
          _ => panic!("verif harness: unknown relation {}", rel),
       }
    }
+   fn clear(&mut self, rel: &str) {
+      match rel {
+         "w" => { self.0.w = Default::default(); },
+         "ext" => { self.0.ext = Default::default(); },
+         "sp" => { self.0.sp = Default::default(); },
+         "cntk" => { self.0.cntk = Default::default(); },
+         _ => panic!("verif harness: unknown relation {}", rel),
+      }
+   }
    fn run(&mut self) { self.0.run(); }
    fn dump(&self) -> Value {
       let mut m: Vec<(String, Value)> = vec![];
